@@ -168,6 +168,9 @@ def load_corpus():
 def request1(c):
     pats = None if c["sel"] is None else sel_patterns(c["sel"])
     kw = dict(eqa=toml_str(c["eqa"]), exports='"equity"', audit="true" if c["audit"] else "false")
+    # the report scale is a display setting of the text reports: the export must not depend on it
+    smin, smax = [(0, 28), (2, 7), (2, 2), (0, 0), (2, 7)][sum(map(ord, c["text"])) % 5]
+    kw["smin"], kw["smax"] = smin, smax
     ov = {}
     if pats is not None:
         if c["via_cli_accounts"]:
